@@ -83,6 +83,7 @@ type session struct {
 	existed  int                // mcreate on an already existing file
 	forceFlu bool               // flush the table writer after every write (partial-table images)
 	failClose string            // fam/f: the close of this table fails with ENOSPC on its final flush (one shot)
+	extraKind string            // what the next extra image shows (branch label)
 }
 
 var (
@@ -329,10 +330,24 @@ func installSeams() (restore func()) {
 			return &manifestWriter{BufioWriter: w, s: s, n: n}, nil
 		},
 		func(name string, data []byte, perm os.FileMode) error {
+			s := findSession(name)
+			if s != nil && s.onOp != nil && !s.muted {
+				// os.WriteFile = truncating open, write, close: the point after the open is a crash point
+				// (the file exists and is empty). Same model prefix: nobody reads CURRENT.tmp.
+				if f, e := os.OpenFile(name, os.O_WRONLY|os.O_CREATE|os.O_TRUNC, perm); e == nil {
+					f.Close()
+					s.extraKind = "writefile-truncated-not-written"
+					s.record(fsop{}, true)
+				}
+			}
 			err := os.WriteFile(name, data, perm)
-			if s := findSession(name); s != nil {
+			if s != nil {
 				n, _ := parseManifestNo(string(data))
-				s.record(fsop{kind: "curtmp", a: n, tok: fmt.Sprintf("curtmp(%d)", n)}, false)
+				tok := fmt.Sprintf("curtmp(%d)", n)
+				if filepath.Base(name) != version.VerifC01CurrentFileName()+"."+version.TmpSuffix {
+					tok = fmt.Sprintf("write(%s,%d)", filepath.Base(name), n)
+				}
+				s.record(fsop{kind: "curtmp", a: n, tok: tok}, false)
 			}
 			return err
 		},
@@ -757,7 +772,8 @@ func copyDir(src, dst string) error {
 type image struct {
 	k     int // number of FS operations completed
 	path  string
-	extra bool   // taken after a forced table-writer flush (same model prefix, table half-written)
+	extra bool   // same model prefix as the previous image: half-written table / truncated-but-unwritten file
+	extraKind string
 	prev  string // kind of the operation just completed
 	opIdx int    // index inside the current operation's trace (len(ops) at capture)
 }
@@ -829,7 +845,12 @@ func (h *hist) takeImage(extra bool) {
 	if n := len(h.sess.ops); n > 0 {
 		prev = h.sess.ops[n-1].kind
 	}
-	h.imgs = append(h.imgs, image{k: h.sess.total, path: p, extra: extra, prev: prev, opIdx: len(h.sess.ops)})
+	ek := ""
+	if extra {
+		ek = h.sess.extraKind
+		h.sess.extraKind = ""
+	}
+	h.imgs = append(h.imgs, image{k: h.sess.total, path: p, extra: extra, extraKind: ek, prev: prev, opIdx: len(h.sess.ops)})
 }
 
 // guard runs f; a panic inside lindb becomes an oracle failure and the output "panic".
@@ -895,13 +916,13 @@ func (h *hist) reopenImage(path string) (r reopened) {
 // property-level observations of the live store around the operation.
 func (h *hist) checkImages(opDesc string, ops []fsop, before, after string, pristine string) {
 	amb := ambiguous(ops)
-	// window of initJournal: after the new manifest was created, before CURRENT is renamed
+	// window of initJournal: after the new manifest was created, before CURRENT.tmp is written
 	mi, ri, newNo := -1, -1, int64(0)
 	for i, o := range ops {
 		if o.kind == "mcreate" && mi < 0 {
 			mi, newNo = i, o.a
 		}
-		if o.kind == "currename" && ri < 0 {
+		if (o.kind == "currename" || o.kind == "curtmp") && ri < 0 {
 			ri = i
 		}
 	}
@@ -943,7 +964,9 @@ func (h *hist) checkImages(opDesc string, ops []fsop, before, after string, pris
 		if im.opIdx == 0 {
 			prev = "start"
 		}
-		if im.extra {
+		if im.extra && im.extraKind != "" {
+			h.c.Branch("point:" + im.extraKind)
+		} else if im.extra {
 			h.c.Branch("point:half-written-table")
 		} else {
 			h.c.Branch("point:" + prev + ">" + next)
